@@ -101,6 +101,11 @@ fn raw_check(case: &Value, stats: &mut Stats) -> CheckResult {
         let _ = raw_from_ref(&p).as_fen();
         return Ok(());
     }
+    if let Some(t) = case.get("twin").and_then(|t| t.as_u64()).and_then(|sel| crate::gen::positions::twin_of(&p, sel as u32)) {
+        let ttext = raw_from_ref(&t).as_fen();
+        let _ = RawBoard::from_fen(&ttext).map(|r| r.as_fen());
+        stats.label("twin_formatted_and_parsed_first");
+    }
     let raw = raw_from_ref(&p);
     let text = raw.as_fen();
     ensure!(text == p.fen(), "raw FEN text {:?} differs from canonical {:?}", text, p.fen());
